@@ -98,9 +98,34 @@ class LmnnProbe:
     lmnn_mod.LMNN._select_targets = self.orig_st
 
 
+def gen_large(recipe, rng):
+  """LMNN on a LARGE training set (two overlapping classes of `large_n` samples each, features of magnitude 1/8: tens of
+  thousands of margin-violating (sample, target, impostor) triples); the objective at the first evaluated points"""
+  m = int(recipe['large_n'])
+  d = 2
+  X = np.round(np.vstack([rng.normal(size=(m, d)), rng.normal(size=(m, d)) + 0.5]) * 8.0) / 64.0
+  X = X + rng.permutation(2 * m)[:, None] * 2.0 ** -12          # (no duplicated samples: the target neighbours are unique)
+  y = np.array([0] * m + [1] * m)
+  p = rng.permutation(2 * m)
+  X, y = X[p], y[p]
+  reg = float(rng.choice([0.25, 0.5, 0.75]))
+  with warnings.catch_warnings():
+    warnings.simplefilter('ignore')
+    est = gen.LMNN(init='identity', n_neighbors=1, max_iter=2, min_iter=1, learn_rate=1e-7, regularization=reg, random_state=0)
+    with LmnnProbe() as pr:
+      est.fit(X, y)
+  events = [{'ev': 'Data', 'algo': 'LMNN', 'X': dym(X), 'y': [int(v) for v in y],
+             'targets': [[int(t) + 1 for t in row] for row in pr.targets], 'k': 1, 'reg': dy(reg)}]
+  for (Lc, v, g, act) in pr.evals[:recipe.get('evals', 1)]:
+    events.append({'ev': 'Eval', 'L': dym(Lc), 'value': dy(v), 'grad': [], 'active': act, 'light': True})
+  return {'est': 'LMNN', 'init': 'identity', 'mode': 'large_n', 'shape_kind': 'large_n', 'events': events}
+
+
 def gen_trace(recipe):
   rng = np.random.default_rng(recipe['seed'])
   algo = recipe['algo']
+  if recipe.get('large_n'):
+    return gen_large(recipe, rng)
   d = int(rng.integers(2, 4))
   ncls = int(rng.integers(2, 4))
   X, y = gen.dataset(rng, d=d, n_classes=ncls, per_class=(int(rng.integers(4, 6)) if ncls == 2 else 4) if True else 4, bits=4, sep=1.5)
@@ -138,7 +163,7 @@ def gen_trace(recipe):
       events.append({'ev': 'Data', 'algo': algo, 'X': dym(X), 'y': [int(v) for v in np.unique(y, return_inverse=True)[1]],
                      'targets': [[int(t) + 1 for t in row] for row in pr.targets], 'k': nn, 'reg': dy(reg)})
       for (Lc, v, g, act) in pr.evals[:10]:
-        events.append({'ev': 'Eval', 'L': dym(Lc), 'value': dy(v), 'grad': dym(g), 'active': act})
+        events.append({'ev': 'Eval', 'L': dym(Lc), 'value': dy(v), 'grad': dym(g), 'active': act, 'light': False})
       truncated = len(pr.evals) > 10
       events.append({'ev': 'Result', 'L': dym(est.components_), 'L_init': dym(L0), 'zero_iterations': bool(len(pr.evals) == 1),
                      'truncated': truncated})
@@ -161,7 +186,7 @@ def gen_trace(recipe):
       for (x, v, g) in pr.evals[:5]:
         Lc = x.reshape(-1, d)
         P, a, e, Z = softmax_witness(Lc, X)
-        events.append({'ev': 'Eval', 'L': dym(Lc), 'value': dy(sign * v), 'grad': dym(sign * g.reshape(-1, d)), 'active': 0,
+        events.append({'ev': 'Eval', 'L': dym(Lc), 'value': dy(sign * v), 'grad': dym(sign * g.reshape(-1, d)), 'active': 0, 'light': False,
                        'P': dym(P), 'a': dym(a), 'e': dym(e), 'Z': dyv(Z)})
       if len(pr.evals) <= 5:
         events.append({'ev': 'Result', 'L': dym(est.components_), 'L_init': dym(L0), 'zero_iterations': bool(pr.nit == 0)})
@@ -178,10 +203,14 @@ def run(ctx):
   rs = []
   for i in range(48 if ctx.quick else 2400):
     rs.append(dict(algo=['NCA', 'MLKR', 'LMNN'][i % 3], seed=int(rng.integers(1 << 30))))
+  # LMNN on LARGE training sets (tens of thousands of active hinge terms): the objective at the first evaluated point(s)
+  for m in ([140, 190] if ctx.quick else [140, 170, 200, 240, 280, 330, 150, 260]):
+    rs.append(dict(algo='LMNN', large_n=m, evals=1 if ctx.quick else 2, seed=int(rng.integers(1 << 30))))
   ctx.rule = ('real NCA / MLKR / LMNN fits on random well-formed (X, y) (y real for MLKR), n_components None or 1..d, every init '
               'option, n_neighbors 1..2, regularization in {1/4,1/2,3/4}, learn_rate, {zero optimiser iterations, a few}; one '
               'event per evaluation the optimiser asked for (<= 5 / 10 per fit); distinct by (learner, init, data); '
-              'non-trivial = fit with more than one evaluation')
+              'non-trivial = fit with more than one evaluation; plus LMNN on two overlapping classes of 140-330 samples each '
+              '(39k-218k active hinge terms), objective value at the first evaluated points')
   pairs = core.generate(MOD, rs)
   core.judge(ctx, *SPEC, pairs, signature_of)
   nev = 0
